@@ -5,6 +5,7 @@ import (
 	"os"
 	"os/signal"
 	"path/filepath"
+	"strings"
 	"sync"
 	"syscall"
 	"time"
@@ -76,11 +77,19 @@ func suiteV18(c *vctx) {
 		}
 		// upgrade mode of the agent: the reload must be all-or-nothing and lose no request in any of them
 		mode := []string{"", "local", "local", "http://127.0.0.1:1/api/update"}[r.Intn(4)]
-		st, err := NewStore(cfgPath, mode, "", "", "")
+		// update hooks are configured: after a reload they must be given the LIVE base directory
+		hooksDir := filepath.Join(c.work, fmt.Sprintf("rlhooks%d", i))
+		hookLog := filepath.Join(c.work, fmt.Sprintf("rlhooks%d.log", i))
+		os.RemoveAll(hooksDir)
+		os.MkdirAll(hooksDir, 0755)
+		os.Remove(hookLog)
+		os.WriteFile(filepath.Join(hooksDir, "log.sh"), []byte("#!/bin/sh\necho \"$WHAWTY_AUTH_STORE\" >> "+hookLog+"\n"), 0755)
+		st, err := NewStore(cfgPath, mode, "", "", hooksDir)
 		if err != nil {
 			c.emit("law.C18.agent_starts "+vxs(err.Error()), "f")
 			continue
 		}
+		st.hooks.rateLimit = 150 * time.Millisecond // (5 s in the code: the harness does not wait that long per scenario)
 		iface := st.GetInterface()
 		flightBoot := map[string][]byte{}
 		for _, d := range []string{dirA, dirB} {
@@ -262,6 +271,27 @@ func suiteV18(c *vctx) {
 		c.emit(fmt.Sprintf("rl.step %s %d %s %d %s %s", vxs(filepath.Base(old.base)), old.dflt, vxs(filepath.Base(nw.base)), nw.dflt, vtf(loadable), vtf(dirOk)),
 			fmt.Sprintf("%s %d", vxs(filepath.Base(live.base)), live.dflt))
 		c.emit("law.C18.requests_in_flight_answered "+desc, vtf(hung == 0 && answered > 0))
+		// never a mixture: the hooks started for a change made AFTER the reload carry the live directory
+		if live.base != "" {
+			time.Sleep(250 * time.Millisecond) // let rounds that belong to earlier changes pass
+			nBefore := 0
+			if b, err := os.ReadFile(hookLog); err == nil {
+				nBefore = strings.Count(string(b), "\n")
+			}
+			iface.Update("probe", "Probe-in-"+filepath.Base(live.base))
+			last := ""
+			for w := 0; w < 40; w++ {
+				time.Sleep(25 * time.Millisecond)
+				if b, err := os.ReadFile(hookLog); err == nil {
+					ls := strings.Split(strings.TrimSpace(string(b)), "\n")
+					if len(ls) > nBefore {
+						last = ls[len(ls)-1]
+						break
+					}
+				}
+			}
+			c.emit(fmt.Sprintf("law.C18.hooks_are_given_the_live_base_directory %s hook-saw=%s", desc, vxs(filepath.Base(last))), vtf(last == live.base))
+		}
 	}
 }
 
